@@ -1023,4 +1023,37 @@ Proof.
               ltac:(apply (K_same RC OC P sf w'); [reflexivity|reflexivity|exact K']) Jf Ff S0 DA DB) as [E S1]. fold ra rb in E, S1.
   split; [exact E2|]. split; [exact E|]. split; [exact DB|]. intros r. apply (sim_content _ _ S1).
 Qed.
+(* the same in the SAME session, right after the build (the session's consistent set is the one the build left) *)
+Theorem bottom_up_then_require_same_session fuel fuel0 h edits ch ops :
+  let wh := snd (run_history RC OC P always fuel init_world h) in
+  let w1 := snd (run_history RC OC P always fuel wh (edits_of edits)) in
+  AllValid wh -> (forall r, get_content w1 r <> get_content wh r -> In r ch) -> roots_below ord fuel ops -> roots_below ord fuel0 ops ->
+  match session_bottom_up RC OC P fuel (new_session w1) ch with
+  | Done _ w' =>
+      (forall t, In t (roots ops) -> get_task_output w' t <> None) ->
+      let ra := run_session RC OC P always fuel w' ops in
+      let rb := run_session RC OC P always fuel0 (new_session (fresh_of w')) ops in
+      (exists seg, trace (snd ra) = rev seg ++ trace w' /\ execs seg = []) /\ fst ra = fst rb /\ Forall is_done (fst rb) /\
+      forall r, get_content (snd ra) r = get_content (snd rb) r
+  | Abort _ _ => False
+  | OutOfFuel => True
+  end.
+Proof.
+  intros wh w1 AV Hch RB RB0. pose proof (bottom_up_restores_validity fuel h edits ch AV Hch) as X.
+  pose proof (bottom_up_then_require_equals_scratch fuel fuel0 h edits ch ops AV Hch RB RB0) as Y. fold wh w1 in X, Y.
+  pose proof (bottom_up_leaves_tasks_up_to_date fuel h edits ch ops AV Hch RB) as Z. fold wh w1 in Z.
+  destruct (session_bottom_up RC OC P fuel (new_session w1) ch) as [u w'|k w'|]; [|exact X|exact Logic.I].
+  destruct X as [AV' [HS' [Q' [NR' K']]]]. intros HX ra rb. specialize (Y HX). specialize (Z HX). cbv zeta in Y, Z. fold rb in Y.
+  destruct Y as [_ [E [DB EC]]]. destruct Z as [Z1 [_ Z3]].
+  set (X := map fst (outs w')).
+  assert (VX : ValidX RC OC X w').
+  { intros x Ix. apply alookup_in in Ix. change (get_task_output w' x <> None) in Ix. split.
+    - destruct (get_task_output w' x) as [o|] eqn:E0; [exists o; reflexivity|contradiction Ix; reflexivity].
+    - intros d dp R. pose proof (AV' x Ix d dp R) as G.
+      destruct dp as [|y c st|r0 c st|r0 c st]; cbn [UpToDate.DepGood DepOKX] in *; [exact G| |exact G|exact G].
+      destruct G as [oy [Oy Cy]]. split; [apply alookup_in; change (get_task_output w' y <> None); rewrite Oy; discriminate|exists oy; split; assumption]. }
+  destruct (idem_session gen ord RC OC P always X fuel ops w' VX HS' Q' RB ltac:(intros t It; apply alookup_in; apply HX; exact It)) as [Qt E2]. fold ra in Qt, E2.
+  split; [apply (qt_seg _ _ Qt)|]. split; [rewrite E2, <- E; exact (eq_sym Z1)|]. split; [exact DB|].
+  intros r. rewrite (qt_content _ _ Qt r), <- EC. symmetry. apply Z3.
+Qed.
 End UT.
